@@ -154,6 +154,7 @@ func TablesWith(c explore.Chooser, defaultCol string) *prog.Program {
 	tableName := s.Pick("name.table", "User", "UserAccount", "U", "HTTPLog", "Log2Entry", "Address", "userData")
 	extraFK := s.Pick("user.extra-fk", "none", "team", "team-unique")
 	teamSlot := s.Pick("team.slot", "none", "same-column")
+	linkCol := s.Pick("link.extra-col", "none", "composite", "array")
 
 	var b, ext strings.Builder
 	b.WriteString("type IdUser int64\n\ntype UserId int64\n\ntype IdTeam int64\n\ntype TeamId int64\n\ntype IdGhost int64\n\n")
@@ -237,6 +238,14 @@ func TablesWith(c explore.Chooser, defaultCol string) *prog.Program {
 		mf = append(mf, "\tIdTeam ext.IdRemote"+tagOD)
 	}
 	mf = append(mf, "\tSince time.Time")
+	switch linkCol {
+	case "composite": // a composite column in a table without primary key (written through COPY)
+		b.WriteString("type Spot struct {\n\tRow, Seat int\n}\n\n")
+		mf = append(mf, "\tSpot Spot")
+	case "array":
+		b.WriteString("type Marks []int64\n\n")
+		mf = append(mf, "\tMarks Marks")
+	}
 	member := "type Membership struct {\n" + strings.Join(mf, "\n") + "\n}"
 
 	doc := func(d, decl string) string {
